@@ -22,6 +22,7 @@ type world struct {
 	libs   map[string]*ast.KnowledgeLibrary
 	insts  map[string]*ast.KnowledgeBase
 	stored map[string][]byte
+	lastHex string
 }
 
 func newWorld() *world {
@@ -169,7 +170,15 @@ func (f *facts) dump() J {
 			continue
 		}
 		if r, ok := f.roots[k]; ok {
-			out = append(out, []J{k, dump(r, false)})
+			// the caller's own object — unless a rule replaced the whole entry (`F = 1.5`)
+			cur := f.dctx.Get(k).Value()
+			if cur.IsValid() && cur.Kind() == reflect.Ptr && r.Kind() == reflect.Ptr && cur.Pointer() == r.Pointer() {
+				out = append(out, []J{k, dump(r, false)})
+			} else if cur.IsValid() && cur.Kind() != reflect.Ptr {
+				out = append(out, []J{k, dump(cur, false)})
+			} else {
+				out = append(out, []J{k, dump(r, false)})
+			}
 			continue
 		}
 		vn := f.dctx.Get(k)
@@ -660,7 +669,11 @@ func (w *world) do(op map[string]J) (res map[string]J) {
 			res["writes"] = fw.n
 		}
 	case "loadhex":
-		data, _ := hex.DecodeString(get("hex"))
+		hx := get("hex")
+		if hx == "" {
+			hx = w.lastHex // the stream of the scenario's last `wire` op (sent once, cut many times)
+		}
+		data, _ := hex.DecodeString(hx)
 		if v, ok := op["cut"]; ok && v != nil {
 			data = data[:int(v.(float64))]
 		}
@@ -674,6 +687,7 @@ func (w *world) do(op map[string]J) (res map[string]J) {
 			res["nrules"] = len(kb.RuleEntries)
 		}
 	case "wire":
+		w.lastHex = get("hex")
 		res["skip"] = "model only"
 	case "load":
 		lib := w.lib(get("lib"))
